@@ -78,3 +78,26 @@ Definition field_spec : list (string * string * string) :=
    ("ffi::AddressRange", "start", "start"); ("ffi::AddressRange", "count", "count");
    ("RequestParam", "id", "unit_id"); ("RequestParam", "response_timeout", "timeout");
    ("doubling_retry_strategy", "min", "min_delay"); ("doubling_retry_strategy", "max", "max_delay")].
+
+(* ---------- constructors ("configuration passes through unchanged") ---------- *)
+(* for each parameter of a Rust client / server constructor: the C argument expression that may feed it
+   (whitespace removed): the same-named C argument, converted by .into() / `as usize` / the address helpers *)
+Definition param_spec : list (string * string) :=
+  [("host", "get_host_addr(host,port)?"); ("addr", "get_socket_addr(ip_addr,port)?");
+   ("max_queued_requests", "max_queued_requestsasusize"); ("max_sessions", "max_sessionsasusize");
+   ("retry", "retry_strategy.into()"); ("retry", "retry.into()");
+   ("decode_level", "decode_level.into()"); ("decode", "decode_level.into()");
+   ("listener", "Some(listener.into())"); ("path", "&path.to_string_lossy()");
+   ("serial_settings", "serial_params.into()"); ("settings", "serial_params.into()");
+   ("tls_config", "tls_config.try_into()?"); ("tls_config", "tls_config");
+   ("handlers", "handler_map.clone()"); ("filter", "filter.into()");
+   ("auth_handler", "AuthorizationHandlerWrapper::new(auth).wrap()")].
+Definition plumbing_row_ok (row : string * string * string * string) : bool :=
+  let '(_, _, param, expr) := row in
+  existsb (fun p => String.eqb (fst p) param && String.eqb (snd p) expr) param_spec.
+(* the constructors the C ABI offers and the Rust constructors they must reach *)
+Definition ctor_spec : list (string * string) :=
+  [("client_channel_create_tcp", "spawn_tcp_client_task"); ("client_channel_create_rtu", "spawn_rtu_client_task");
+   ("client_channel_create_tls", "spawn_tls_client_task"); ("server_create_tcp", "spawn_tcp_server_task");
+   ("server_create_rtu", "spawn_rtu_server_task"); ("server_create_tls_impl", "spawn_tls_server_task_with_authz");
+   ("server_create_tls_impl", "spawn_tls_server_task")].
